@@ -783,7 +783,7 @@ fn finish(g: &mut G, profile_name: &str, seed: u64, mut actors: Vec<ActorSpec>, 
                         Op::StopTo { slot, ms: g.timeout() }
                     } else if g.r.chance(25) {
                         // mostly the no-op form: a stop future that is never polled
-                        Op::StopDeferred { slot, defer: [0, 0, 0, 1, 2, 4][g.r.below(6) as usize] }
+                        Op::StopDeferred { slot, defer: [0, 0, 3, 3, 1, 2, 4][g.r.below(7) as usize] }
                     } else {
                         Op::Stop { slot }
                     }
